@@ -421,7 +421,7 @@ pub fn gen_case(rng: &mut Rng, id: String) -> PolCase {
 /// overwrite one key, each having looked up the size it replaces before either stored.
 pub fn witnesses() -> Vec<(PolCase, Vec<usize>)> {
     let k = b"k".to_vec();
-    vec![(
+    let v = vec![(
         PolCase {
             id: "w-overwrite-overwrite".into(),
             limit: 100_000,
@@ -442,7 +442,33 @@ pub fn witnesses() -> Vec<(PolCase, Vec<usize>)> {
             threads: vec![vec![COp::Del(k.clone(), 1)], vec![COp::Set(k.clone(), b"v2".to_vec(), 0, 0, 0)]],
         },
         vec![0, 0, 1, 1, 1, 1, 1, 1, 1, 1, 1, 1, 1, 1, 0, 0, 0, 0, 0, 0],
-    )]
+    )];
+    // a read-modify-write whose final store does not fit under the limit next to the copy it
+    // replaces, and a retrieval by another client at every point inside it: the key exists
+    // before and after and nobody deletes it — the retrieval finds it
+    let mut v = v;
+    for (name, rmw) in [
+        ("append", COp::Append(k.clone(), 0, b"xxxxxxxxxx".to_vec())),
+        ("replace", COp::Replace(k.clone(), vec![b'r'; 62], 3, 0, 0)),
+        ("incr", COp::Delta(true, b"n".to_vec(), 0, 0, 1, 40)),
+    ] {
+        for split in 1..10usize {
+            let mut sched = vec![0; split];
+            sched.extend(vec![1; 8]);
+            sched.extend(vec![0; 12]);
+            v.push((
+                PolCase {
+                    id: format!("w-{}-under-pressure-{}", name, split),
+                    limit: 120,
+                    prelude: vec![COp::Set(k.clone(), vec![b'p'; 60], 0, 0, 0), COp::Set(b"n".to_vec(), b"7".to_vec(), 0, 0, 0)],
+                    tick: 0,
+                    threads: vec![vec![rmw.clone()], vec![COp::Get(if name == "incr" { b"n".to_vec() } else { k.clone() })]],
+                },
+                sched,
+            ));
+        }
+    }
+    v
 }
 
 pub fn parse_trace(text: &str) -> Vec<(PolCase, Vec<usize>)> {
@@ -459,7 +485,8 @@ pub fn parse_trace(text: &str) -> Vec<(PolCase, Vec<usize>)> {
                 let ttl = u32::from_be_bytes([bytes[28], bytes[29], bytes[30], bytes[31]]);
                 let key = bytes[32..32 + keylen].to_vec();
                 let val = bytes[32 + keylen..].to_vec();
-                out.last_mut().unwrap().0.prelude.push(COp::Set(key, val, flags, ttl, 0));
+                let cas = u64::from_be_bytes([bytes[16], bytes[17], bytes[18], bytes[19], bytes[20], bytes[21], bytes[22], bytes[23]]);
+                out.last_mut().unwrap().0.prelude.push(COp::Set(key, val, flags, ttl, cas));
             }
             "T" => out.last_mut().unwrap().0.tick = p[1].parse().unwrap(),
             "MOPS" => {
@@ -491,8 +518,8 @@ pub fn run_cases(seed: u64, cases: usize, fixed: Vec<(PolCase, Vec<usize>)>, tra
             // what identifies the case, should one of its commands never return
             let mut head = format!("CASE {} 1048576 {}\n", case.id, case.limit);
             for o in case.prelude.iter() {
-                if let COp::Set(k, v, f, t, _) = o {
-                    let req = crate::gen::set_like(opc::SETQ, k, v, *f, *t);
+                if let COp::Set(k, v, f, t, c) = o {
+                    let req = crate::gen::set_like(opc::SETQ, k, v, *f, *t).cas(*c);
                     let _ = writeln!(head, "O\nC 0 {}", hex(&req.bytes()));
                 }
             }
@@ -521,14 +548,14 @@ pub fn run_cases(seed: u64, cases: usize, fixed: Vec<(PolCase, Vec<usize>)>, tra
         let _ = writeln!(trace, "CASE {} 1048576 {}", case.id, case.limit);
         let _ = writeln!(obs, "CASE {}", case.id);
         for (pi, o) in case.prelude.iter().enumerate() {
-            if let COp::Set(k, v, f, t, _) = o {
+            if let COp::Set(k, v, f, t, c) = o {
                 let vs: Vec<String> = res.prelude_victims[pi].iter().map(|k| hex(k)).collect();
                 if vs.is_empty() {
                     let _ = writeln!(trace, "O");
                 } else {
                     let _ = writeln!(trace, "O {}", vs.join(","));
                 }
-                let req = crate::gen::set_like(opc::SETQ, k, v, *f, *t);
+                let req = crate::gen::set_like(opc::SETQ, k, v, *f, *t).cas(*c);
                 let _ = writeln!(trace, "C 0 {}", hex(&req.bytes()));
                 let _ = writeln!(obs, "S 0 0 0 0");
             }
@@ -575,6 +602,26 @@ pub fn run_cases(seed: u64, cases: usize, fixed: Vec<(PolCase, Vec<usize>)>, tra
         // and, when neither the window nor any one-at-a-time order ran a scan of the map (no
         // eviction, no immediate flush: nothing random), the outcome must be that of some order
         // of the commands — except for the read-modify-write commands (known finding C04)
+        // a key that is there before the window, never expires, and that no command of the
+        // window deletes or flushes, with no eviction in the window: every retrieval finds it
+        // (true of the read-modify-write commands as they are, too: they store, never remove)
+        let removes = case.threads.iter().flatten().any(|o| matches!(o, COp::Del(..) | COp::Flush(_)));
+        if res.scans.is_empty() && !removes && !res.prelude_victims.iter().any(|v| !v.is_empty()) {
+            for (t, ops) in case.threads.iter().enumerate() {
+                for (j, o) in ops.iter().enumerate() {
+                    if let COp::Get(key) = o {
+                        let there = case.prelude.iter().rev().find_map(|p| match p {
+                            COp::Set(pk, _, _, ttl, _) if pk == key => Some(*ttl == 0),
+                            _ => None,
+                        }) == Some(true);
+                        let answer = res.mresults.get(t).and_then(|r| r.get(j)).cloned().unwrap_or_default();
+                        if there && answer.starts_with("err") {
+                            let _ = writeln!(monitor, "VANISH {} base", case.id);
+                        }
+                    }
+                }
+            }
+        }
         let rmw = case.threads.iter().flatten().any(|o| o.class() != "base");
         let total_ops: usize = case.threads.iter().map(|t| t.len()).sum();
         // what the prelude evicts is the random generator's choice too: a re-run starts elsewhere
